@@ -561,6 +561,12 @@ pub fn run(args: &Args) -> Value {
             BondSpec { kind: 2, mat: vec![1.5, 1.5], vars: vec![1] }], state: vec![true, false], loops: false, hb: false }),
         ("C02,C04", None, QmcSpec { nvars: 2, bonds: vec![BondSpec { kind: 2, mat: vec![2.0, 0.5, 0.5, 2.0], vars: vec![0, 1] }, cst(0, 0.75),
             BondSpec { kind: 2, mat: vec![1.5, 1.5], vars: vec![1] }], state: vec![false, false], loops: false, hb: true }),
+        // energy shifts on two and three variables (diagonal tables with equal entries) next to exchange
+        // terms, loop updates on: a loop through a shift vertex may only bounce or go straight
+        ("C04", None, QmcSpec { nvars: 2, bonds: vec![exch(vec![0, 1], 1.0, 0.5, 0.75), BondSpec { kind: 2, mat: vec![0.75; 4], vars: vec![0, 1] }],
+            state: vec![true, false], loops: true, hb: false }),
+        ("C04", None, QmcSpec { nvars: 3, bonds: vec![exch(vec![0, 1], 0.5, 1.0, 0.5), exch(vec![1, 2], 1.0, 0.25, 1.0),
+            BondSpec { kind: 2, mat: vec![0.5; 8], vars: vec![2, 0, 1] }], state: vec![true, false, true], loops: true, hb: false }),
         ("C04", Some("odd-parity"), QmcSpec { nvars: 2, bonds: vec![BondSpec { kind: 0, mat: vec![2.0, 1.0, 1.0, 0.5], vars: vec![0] },
             BondSpec { kind: 0, mat: vec![2.0, 1.0, 1.0, 0.5], vars: vec![1] }, BondSpec { kind: 3, mat: vec![1.0, 0.0, 0.0, 1.0], vars: vec![0, 1] }],
             state: vec![true, false], loops: true, hb: false }),
